@@ -469,6 +469,99 @@ def check_inline_padding(ctx, prog, tag):
     ctx.floor("C07.V11 reads of the inline string buffer" + tag, n, 1)
 
 
+
+SORTERS = ("::sort_by", "::sort_unstable_by", "::sort_by_key", "::sort_by_cached_key", "::max_by", "::min_by",
+           "::binary_search_by", "::dedup_by", "::is_sorted_by", "safe_sort")
+
+def check_comparators(ctx, prog, tag, rule="C07.V2.comparator-is-total"):
+    # ---- V2
+    n2 = 0
+    for f in prog.fns.values():
+        if not (f.loc.f.endswith("filters.rs") or f.loc.f.endswith("filters/mod.rs") or f.path.endswith("utils::safe_sort")
+                or f.loc.f.endswith("tests.rs")):
+            continue
+        for c in f.calls():
+            if not any(c.name.endswith(s) for s in SORTERS):
+                continue
+            for a in c.args:
+                for o in flow.origins(f, a):
+                    if o.kind == "agg" and o.rv.get("closure"):
+                        cl = prog.fns.get(norm_path(o.rv["closure"]))
+                        if cl is None:
+                            continue
+                        n2 += 1
+                        badc = []
+                        scope = [cl] + prog.closures_of(cl.path)
+                        # helpers the comparator delegates to (same crate), two levels deep
+                        for _ in range(2):
+                            for k in list(scope):
+                                for cc in k.calls():
+                                    g = prog.fns.get(cc.resolved or cc.path or "")
+                                    if g is not None and g.crate in ("minijinja", "minijinja_contrib") and g not in scope \
+                                            and (g.loc.f.endswith("filters.rs") or g.loc.f.endswith("filters/mod.rs")):
+                                        scope.append(g)
+                        for k in scope:
+                            for cc in k.calls():
+                                if cc.path == "core::cmp::PartialOrd::partial_cmp" and (cc.self_ty or {}).get("prim") in ("f64", "f32"):
+                                    badc.append("partial_cmp on floats")
+                                if cc.path in ("core::cmp::PartialOrd::lt", "core::cmp::PartialOrd::gt") and (
+                                        (cc.self_ty or {}).get("prim") in ("f64", "f32")):
+                                    badc.append("float compare")
+                                if cc.name in ("core::option::Option::unwrap", "core::option::Option::expect"):
+                                    src = flow.origins(k, cc.args[0])
+                                    if any(oo.kind == "call" and oo.call.path == "core::cmp::PartialOrd::partial_cmp" for oo in src):
+                                        badc.append("partial_cmp().unwrap()")
+                            for bb, i, s in k.all_stmts():
+                                rv = s.get("rv", {})
+                                if rv.get("k") == "bin" and rv.get("ty") in ("f64", "f32") and rv["op"] in ("Lt", "Gt", "Le", "Ge"):
+                                    badc.append("float compare")
+                        # bytes that are valid UTF-8 have a string view as well (`as_str()` is Some for them) but
+                        # they order as bytes against other bytes: a comparator that folds / compares through the
+                        # string view must first establish that the value *is* a string
+                        for k in scope:
+                            for cc in k.calls():
+                                if cc.name != V + "Value::as_str" or not cc.args:
+                                    continue
+                                who = {o_.key() for o_ in flow.origins(k, cc.args[0])}
+                                guarded = False
+                                for (sb_, taken_) in flow.guards(k, cc.bb):
+                                    cd_ = flow.cond_of(k, sb_)
+                                    ee_ = flow.enum_eq(k, cd_)
+                                    side_ = flow.bool_true_labels(taken_)
+                                    if ee_ is None or side_ is None or ee_[0] != "String":
+                                        continue
+                                    truth_ = (side_ != cd_.neg) != cd_.call.name.endswith("::ne")
+                                    if truth_ and any(o_.kind == "call" and o_.call.name == KINDFN and (
+                                            {q_.key() for q_ in flow.origins(k, o_.call.args[0])} & who) for o_ in ee_[1]):
+                                        guarded = True
+                                if not guarded:
+                                    badc.append("the string view of a value that may be bytes (as_str without kind() == String)")
+                        # a verdict that is a constant on some inputs and a real comparison on others is not
+                        # transitive (`_ => Ordering::Equal` for items whose key lookup failed: such an item is
+                        # "equal" to two items that are not equal to each other); std's sort panics on that
+                        rets = flow.origins(cl, 0)
+                        consts = [r for r in rets if r.kind == "const" or (r.kind == "agg" and (r.rv.get("adt") or "").endswith("cmp::Ordering"))]
+                        if consts and len(consts) < len(rets):
+                            badc.append("a constant Ordering for some pairs of items")
+                        # an element-wise comparison over `zip` stops at the shorter sequence: without a tie-break on
+                        # the lengths a sequence is "equal" to everything it is a prefix of ([1] ~ [1,0] ~ [1,2] but
+                        # [1,0] < [1,2]): not transitive, std's sort panics on it (seed C01-7)
+                        for k in scope:
+                            zips = [cc for cc in k.calls() if cc.name.endswith("Iterator::zip")]
+                            if not zips:
+                                continue
+                            lengths = [cc for cc in k.calls() if cc.name.endswith("::len") or cc.name.endswith("Iterator::count")
+                                       or cc.name.endswith("Iterator::cmp") or cc.name.endswith("Iterator::cmp_by")
+                                       or cc.name.endswith("Iterator::partial_cmp") or cc.name.endswith("Ordering::then")
+                                       or cc.name.endswith("Ordering::then_with")]
+                            if not lengths:
+                                badc.append("an element-wise comparison over zip() without a tie-break on the lengths")
+                        ctx.ob(rule, "%s%s|%s" % (tag, f.path, c.name.split("::")[-1]), not badc,
+                               "comparator passed to %s uses %s: not a total order (NaN) / may panic" % (c.name.split("::")[-1], badc),
+                               f.where(c.bb))
+    return n2
+
+
 def check_float_order_vs_equality(ctx, prog, tag, rule="C07.V3.bitwise-float-order-only-for-unequal-floats", floor_name="C07.V3"):
     # ---- V3: the float order agrees with float equality.  `==` on values compares floats with IEEE `==`
     # (-0.0 == 0.0); an order computed from the bit pattern (f64::total_cmp, to_bits) tells them apart, so a
@@ -598,80 +691,7 @@ def run(ctx):
         ctx.ob("C07.V1d.cmp-orders-by-kind-first", tag + CMP, ok,
                "Value::cmp must compare kinds first and return that result when it is not Equal", cmpf.loc)
 
-        # ---- V2
-        n2 = 0
-        SORTERS = ("::sort_by", "::sort_unstable_by", "::sort_by_key", "::sort_by_cached_key", "::max_by", "::min_by",
-                   "::binary_search_by", "::dedup_by", "::is_sorted_by", "safe_sort")
-        for f in prog.fns.values():
-            if not (f.loc.f.endswith("filters.rs") or f.loc.f.endswith("filters/mod.rs") or f.path.endswith("utils::safe_sort")
-                    or f.loc.f.endswith("tests.rs")):
-                continue
-            for c in f.calls():
-                if not any(c.name.endswith(s) for s in SORTERS):
-                    continue
-                for a in c.args:
-                    for o in flow.origins(f, a):
-                        if o.kind == "agg" and o.rv.get("closure"):
-                            cl = prog.fns.get(norm_path(o.rv["closure"]))
-                            if cl is None:
-                                continue
-                            n2 += 1
-                            badc = []
-                            scope = [cl] + prog.closures_of(cl.path)
-                            # helpers the comparator delegates to (same crate), two levels deep
-                            for _ in range(2):
-                                for k in list(scope):
-                                    for cc in k.calls():
-                                        g = prog.fns.get(cc.resolved or cc.path or "")
-                                        if g is not None and g.crate in ("minijinja", "minijinja_contrib") and g not in scope \
-                                                and (g.loc.f.endswith("filters.rs") or g.loc.f.endswith("filters/mod.rs")):
-                                            scope.append(g)
-                            for k in scope:
-                                for cc in k.calls():
-                                    if cc.path == "core::cmp::PartialOrd::partial_cmp" and (cc.self_ty or {}).get("prim") in ("f64", "f32"):
-                                        badc.append("partial_cmp on floats")
-                                    if cc.path in ("core::cmp::PartialOrd::lt", "core::cmp::PartialOrd::gt") and (
-                                            (cc.self_ty or {}).get("prim") in ("f64", "f32")):
-                                        badc.append("float compare")
-                                    if cc.name in ("core::option::Option::unwrap", "core::option::Option::expect"):
-                                        src = flow.origins(k, cc.args[0])
-                                        if any(oo.kind == "call" and oo.call.path == "core::cmp::PartialOrd::partial_cmp" for oo in src):
-                                            badc.append("partial_cmp().unwrap()")
-                                for bb, i, s in k.all_stmts():
-                                    rv = s.get("rv", {})
-                                    if rv.get("k") == "bin" and rv.get("ty") in ("f64", "f32") and rv["op"] in ("Lt", "Gt", "Le", "Ge"):
-                                        badc.append("float compare")
-                            # bytes that are valid UTF-8 have a string view as well (`as_str()` is Some for them) but
-                            # they order as bytes against other bytes: a comparator that folds / compares through the
-                            # string view must first establish that the value *is* a string
-                            for k in scope:
-                                for cc in k.calls():
-                                    if cc.name != V + "Value::as_str" or not cc.args:
-                                        continue
-                                    who = {o_.key() for o_ in flow.origins(k, cc.args[0])}
-                                    guarded = False
-                                    for (sb_, taken_) in flow.guards(k, cc.bb):
-                                        cd_ = flow.cond_of(k, sb_)
-                                        ee_ = flow.enum_eq(k, cd_)
-                                        side_ = flow.bool_true_labels(taken_)
-                                        if ee_ is None or side_ is None or ee_[0] != "String":
-                                            continue
-                                        truth_ = (side_ != cd_.neg) != cd_.call.name.endswith("::ne")
-                                        if truth_ and any(o_.kind == "call" and o_.call.name == KINDFN and (
-                                                {q_.key() for q_ in flow.origins(k, o_.call.args[0])} & who) for o_ in ee_[1]):
-                                            guarded = True
-                                    if not guarded:
-                                        badc.append("the string view of a value that may be bytes (as_str without kind() == String)")
-                            # a verdict that is a constant on some inputs and a real comparison on others is not
-                            # transitive (`_ => Ordering::Equal` for items whose key lookup failed: such an item is
-                            # "equal" to two items that are not equal to each other); std's sort panics on that
-                            rets = flow.origins(cl, 0)
-                            consts = [r for r in rets if r.kind == "const" or (r.kind == "agg" and (r.rv.get("adt") or "").endswith("cmp::Ordering"))]
-                            if consts and len(consts) < len(rets):
-                                badc.append("a constant Ordering for some pairs of items")
-                            ctx.ob("C07.V2.comparator-is-total", "%s%s|%s" % (tag, f.path, c.name.split("::")[-1]), not badc,
-                                   "comparator passed to %s uses %s: not a total order (NaN) / may panic" % (c.name.split("::")[-1], badc),
-                                   f.where(c.bb))
+        n2 = check_comparators(ctx, prog, tag)
         # ---- V6: the hashing family of numbers goes through `i64::try_from(value)`; its float arm must not accept 2^63
         # (saturating cast), or the float hashes like i64::MAX while being equal to the integer 2^63
         from .c08 import float_roundtrip_sites
